@@ -1,5 +1,66 @@
-/- C02 — placeholder until the theorems are in; not claimed in MANIFEST.json while this comment stands. -/
+/-
+C02 — Each message unit runs exactly the first command matching its effective header.
+Property theorems only; helper lemmas in ScpiVerif/Lemmas/Dispatch.lean.
+
+`Spec.Message.unitsOf` splits the raw message into units with the unit specification of C13,
+`Spec.Message.effective` is the statement's rule for the effective header, `Spec.Message.dispatch`
+the first table entry whose pattern LANGUAGE (Spec.Pattern.accepts, C03) contains it.
+-/
 import ScpiVerif.Model.Ctx
 import ScpiVerif.Spec.Message
+import ScpiVerif.Props.C03
+import ScpiVerif.Props.C13
+import ScpiVerif.Lemmas.Dispatch
+
 namespace ScpiVerif.Props.C02
+open ScpiVerif ScpiVerif.Ctx ScpiVerif.Lexer ScpiVerif.Spec ScpiVerif.Spec.Message
+
+/-- the table's patterns belong to the property's grammar and satisfy C03's side condition -/
+def TableOK (cmds : List Cmd) (pats : List Pattern.Pat) : Prop :=
+  pats.length = cmds.length ∧
+  ∀ i (h : i < cmds.length), ∃ p, pats[i]? = some p ∧ Pattern.parsePattern (cmds[i]).pattern = some p ∧ Pattern.wellFormed p.kws = true
+
+/-- no handler script queues -113 itself (so that every -113 in the trace comes from the dispatcher) -/
+def NoScript113 (cmds : List Cmd) : Prop :=
+  ∀ cmd ∈ cmds, ∀ op ∈ cmd.script, ∀ code info, op = SOp.ePush code info → code ≠ -113
+
+/-- dispatch-level projection of the events produced by one SCPI_Parse: handler entries and -113 errors -/
+def dispatchTrace (evs : List Ev) : List Ev :=
+  evs.filter (fun e => match e with | .handler .. => true | .error (-113) _ => true | _ => false)
+
+/-- does the event realise the expectation?  A handler event must name the matched entry's tag and carry
+exactly the effective header; an undefined header must give a -113 whose text contains the header as written -/
+def realises (cmds : List Cmd) (hdrAsWritten : Bytes) : Expect → Ev → Prop
+  | .run i eff, .handler tag h => (∃ cmd, cmds[i]? = some cmd ∧ tag = cmd.tag) ∧ h = eff
+  | .undefined _, .error (-113) (some text) => ∃ pre post, text = pre ++ hdrAsWritten ++ post
+  | _, _ => False
+
+/-- Full statement: for every context, every command table of the grammar (overlapping and duplicate
+patterns included), every script assignment and every well-formed message lying in the input buffer,
+the handler invocations and -113 errors produced by SCPI_Parse are, in message order and one per unit
+that has a header, exactly what the statement prescribes: the handler of the FIRST entry whose pattern
+accepts the unit's effective header, entered with that effective header, or else one -113 carrying the
+offending text. -/
+theorem dispatch_correct (c : Ctx) (base len : Nat) (pats : List Pattern.Pat)
+    (hb : base + len ≤ c.buf.length) (ht : TableOK c.cmds pats) (hs : NoScript113 c.cmds)
+    (hwf : ∀ u ∈ unitsOf ((c.buf.drop base).take len), u.wellFormed = true ∧ 0 ≤ u.nParams) :
+    let msg := (c.buf.drop base).take len
+    let us := (unitsOf msg).filter (fun u => !u.header.isEmpty)
+    let want := expectDispatch pats (unitsOf msg)
+    let got := dispatchTrace ((parse c base len).1.events.drop c.events.length)
+    got.length = want.length ∧ us.length = want.length ∧
+    ∀ k (hk : k < want.length), ∃ e u, got[k]? = some e ∧ us[k]? = some u ∧ realises c.cmds u.header want[k] e :=
+  Lemmas.Dispatch.dispatch_correct c base len pats hb ht hs hwf
+
+/-- the effective-header rule in the statement's words -/
+theorem effective_rule (prev : Option Bytes) (hdr : Bytes) :
+    effective prev hdr =
+      (match prev with
+       | none => hdr
+       | some p => if hdr.head? = some 58 ∨ hdr.head? = some 42 ∨ p.head? = some 42 then hdr else pathOf p ++ hdr) := by
+  unfold effective
+  cases prev with
+  | none => rfl
+  | some p => by_cases h1 : hdr.head? = some 58 ∨ hdr.head? = some 42 <;> by_cases h2 : p.head? = some 42 <;> simp [h1, h2] <;> (try (rcases h1 with h | h <;> simp [h]))
+
 end ScpiVerif.Props.C02
